@@ -5,19 +5,21 @@
    allocated: cells that existed before (index < |st|) keep their index, the k-th cell allocated by the
    second run sits |st1| - |st| places after the k-th cell allocated by the first.
 
-   What is NOT invariant, exactly (the faithful model refutes the unconditional statement, and so does the
-   real interpreter, known/C02.json F52): the first evaluation may NAME a cell that existed before and had no
-   name yet (`y = fs[0]` inside a do-block); a named function is bound to its own name when called, which
-   shadows a name its body resolves dynamically through the caller's chain.  The theorem therefore carries
-   the hypothesis [old_names_kept st st1] ("the first run named no cell that existed before"), which holds
-   for free when every cell of st already has a name ([all_named]).  Well-formedness [frames_lt]: the scope
-   chain mentions only cells that exist (no dangling index), an invariant of every run from the empty store. *)
+   The general theorems below carry the hypothesis [old_names_kept st st1] ("the first run named no cell that
+   existed before").  On the code as pinned before repo fix F52 it was needed: an assignment named ANY unnamed
+   lambda it was handed, `y = fs[0]` inside a do-block named an old cell, and a named function is bound to its
+   own name when called, which shadows a name its body resolves dynamically (known/C02.json F52: the same
+   expression succeeded once and failed the second time, in the model and on the real interpreter).  With the
+   repaired rule (Env.name_if_created) it is a theorem (C02Keep.v: evaluation never writes to an existing cell)
+   and the instance theorems at the end of this file ([.._uncond]) no longer mention it.
+   Well-formedness [frames_lt]: the scope chain mentions only cells that exist (no dangling index), an
+   invariant of every run from the empty store. *)
 From Coq Require Import String Ascii List ZArith Bool Lia.
 Require Import Blots.Num Blots.gen.Builtins Blots.Ast Blots.Value Blots.Outcome Blots.Binop
-               Blots.Env Blots.Eval Blots.BuiltinsHof Blots.Program Blots.EvalInst
+               Blots.Env Blots.Eval Blots.BuiltinsHof Blots.Program Blots.EvalInst Blots.EvalFull
                Blots.proofs.ExprInd Blots.proofs.ValueInd Blots.proofs.Frames Blots.proofs.StoreMono
                Blots.proofs.Scoping Blots.proofs.InstMono
-               Blots.proofs.C02Ren Blots.proofs.C02Sim Blots.proofs.C02Ops.
+               Blots.proofs.C02Ren Blots.proofs.C02Sim Blots.proofs.C02Ops Blots.proofs.C02Keep.
 Import ListNotations.
 Open Scope string_scope.
 Open Scope list_scope.
@@ -241,4 +243,57 @@ Proof.
   intros release d e c v1 c1 v2 c2 Hna Hwf HA Hk HB.
   destruct (eval_twice_inst release d e c (Ok v1) c1 (Ok v2) c2 Hna Hwf HA Hk HB) as [Hs _].
   apply same_equals. exact Hs.
+Qed.
+
+(* ---- with the repaired naming rule the side condition is a theorem (C02Keep.v) ---- *)
+Lemma store_keep_old_names : forall st st1, store_keep st st1 -> length st <= length st1 /\ old_names_kept st st1.
+Proof. intros st st1 [L N]. split; [exact L|exact N]. Qed.
+
+Theorem eval_twice_inst_uncond : forall release d e c r1 c1 r2 c2,
+  no_assign e = true -> cfg_wf c = true ->
+  evalD release binop_impl builtin_impl d c e = (r1, c1) ->
+  evalD release binop_impl builtin_impl d c1 e = (r2, c2) ->
+  osame r1 r2 /\ snd c2 = snd c /\ snd c1 = snd c.
+Proof.
+  intros release d e c r1 c1 r2 c2 Hna Hwf HA HB.
+  destruct (store_keep_old_names _ _ (evalD_store_keep release d c e r1 c1 HA)) as [_ Hk].
+  exact (eval_twice_inst release d e c r1 c1 r2 c2 Hna Hwf HA Hk HB).
+Qed.
+
+Theorem eval_twice_shift_uncond : forall release d e st fr r1 st1 fr1,
+  no_assign e = true -> frames_lt (length st) fr = true ->
+  evalD release binop_impl builtin_impl d (st, fr) e = (r1, (st1, fr1)) ->
+  fr1 = fr /\
+  exists st2, evalD release binop_impl builtin_impl d (st1, fr) e =
+                (oren (shift (length st) (length st1 - length st)) r1, (st2, fr)) /\
+              sinv (shift (length st) (length st1 - length st)) st1 st2.
+Proof.
+  intros release d e st fr r1 st1 fr1 Hna Hwf HA.
+  destruct (store_keep_old_names _ _ (evalD_store_keep release d (st, fr) e r1 (st1, fr1) HA)) as [Hlen Hk].
+  exact (eval_twice_shift release binop_impl builtin_impl ops_commute_inst d e st fr r1 st1 fr1 Hna Hwf HA Hlen Hk).
+Qed.
+
+Corollary eval_twice_equals_uncond : forall release d e c v1 c1 v2 c2,
+  no_assign e = true -> cfg_wf c = true ->
+  evalD release binop_impl builtin_impl d c e = (Ok v1, c1) ->
+  evalD release binop_impl builtin_impl d c1 e = (Ok v2, c2) ->
+  equals v1 v2 = equals v1 v1.
+Proof.
+  intros release d e c v1 c1 v2 c2 Hna Hwf HA HB.
+  destruct (eval_twice_inst_uncond release d e c (Ok v1) c1 (Ok v2) c2 Hna Hwf HA HB) as [Hs _].
+  apply same_equals. exact Hs.
+Qed.
+
+(* for the FULL built-in dispatcher the naming side condition is discharged as well; what remains a
+   hypothesis there is [ops_commute binop_impl builtin_full] (kept as a Prop in Properties/C02.v) *)
+Theorem eval_twice_full_dispatcher : ops_commute binop_impl builtin_full ->
+  forall release d e c r1 c1 r2 c2,
+  no_assign e = true -> cfg_wf c = true ->
+  evalD release binop_impl builtin_full d c e = (r1, c1) ->
+  evalD release binop_impl builtin_full d c1 e = (r2, c2) ->
+  osame r1 r2 /\ snd c2 = snd c /\ snd c1 = snd c.
+Proof.
+  intros Hops release d e c r1 c1 r2 c2 Hna Hwf HA HB.
+  destruct (store_keep_old_names _ _ (evalD_store_keep_full release d c e r1 c1 HA)) as [Hlen Hk].
+  exact (eval_twice_same release binop_impl builtin_full Hops d e c r1 c1 r2 c2 Hna Hwf HA Hlen Hk HB).
 Qed.
